@@ -22,6 +22,13 @@
     distinct earlier sends at least one delay before);
   * `C15_conservation_trace`: the same statement on the returned unfiltered trace, in the
     vocabulary of the monitor (`normalSentCount`, `share`).
+  * `C15_monitor_accepts_model_partial`, `C15_monitor_accepts_model`: **the monitor accepts the
+    model's own observation** (`modelObs`: what the driver compares the implementation with) —
+    for every case, run, oracle and budget, under the guard that a run ending because `pick_next`
+    returned `None` left no normal packet queued; the guard follows from the input bounds of
+    `C19_total` (second theorem, no hypothesis about the run) and is needed:
+    `C15_monitor_rejects_unreachable_packet` is a model observation the monitor rejects (a packet
+    `Duration::MAX` after the clock, outside the u64-nanosecond range of trace files).
 -/
 import MbVerif.Proofs.SimMatch
 import MbVerif.Proofs.SimRaw
@@ -355,6 +362,35 @@ theorem C15_monitor_accepts_model_partial (budget : Nat) (c : CaseIn) (r : RunIn
           simp only [if_true, List.all_cons, List.all_nil, Bool.and_true, Bool.and_eq_true, beq_iff_eq]
           exact ⟨heq true, heq false⟩
 
+/-- **The C15 monitor accepts the model's own observation**, from bounds on the inputs only
+    (those of `C19_total`): machine lists on both sides accepted by validation, limit fractions
+    in [0, 1], normal-packet times up to `T`, a packets-per-second limit that is absent or at
+    least 1, a cap of `N ≥ 1` iterations (`max_sim_iterations = N`, or `max_trace_length = N`
+    with both filters off) and `(N + 2) · span N T delay ≤ Duration::MAX`.  Then, for every
+    oracle and loop budget, the model run does not fault, every queued event stays less than
+    `Duration::MAX` ahead of the clock, so `pick_next` returns `None` only when the queues are
+    empty (`simAdvanced_drained`), the guard of the partial theorem holds, and `C15.monitor`
+    reports no failure on the model's observation — with or without continuing after the last
+    normal packet, with any filters. -/
+theorem C15_monitor_accepts_model (budget : Nat) (c : CaseIn) (r : RunIn) (orc : σ) (N T : Nat)
+    (hmc : MachinesOK c.mc) (hms : MachinesOK c.ms)
+    (hfrac : Validate.fracOK (r.effArgs c.delay).fpClient = true ∧ Validate.fracOK (r.effArgs c.delay).fbClient = true ∧
+      Validate.fracOK (r.effArgs c.delay).fpServer = true ∧ Validate.fracOK (r.effArgs c.delay).fbServer = true)
+    (hT : ∀ l ∈ normalLines c.trace, l.1 ≤ T)
+    (hpps : ∀ p, (r.effArgs c.delay).network.pps = some p → 1 ≤ p)
+    (hcap : CappedAt (r.effArgs c.delay) N) (hN : 0 < N) (hg : (N + 2) * TB.span N T c.delay ≤ durMax) :
+    C15.monitor c (modelObs ρ budget c r orc) = none := by
+  by_cases hne : normalLines c.trace = []
+  · obtain ⟨cls, hc⟩ := res_panic (t0 := obsT0 c) (no_normal_line_panics ρ budget c r orc hne)
+    unfold C15.monitor
+    rw [modelObs_res, hc]
+  · apply C15_monitor_accepts_model_partial
+    intro hs stf hf cl
+    unfold modelOut at hs hf
+    rw [parseTraceRaw_eq] at hs hf
+    exact simAdvanced_drained ρ budget hmc hms (parseTrace_queueOK c.delay hne hT) hfrac (effArgs_delay r c.delay)
+      (parseTrace_effPps c.delay hne _ hpps) hcap hN hg orc hs stf hf cl
+
 /-- **The guard is needed.**  Two client packets, the second exactly `Duration::MAX`
     (1.8·10^28 ns; not expressible in a trace file, whose times are u64 nanoseconds) after the
     first, no machines, delay 0, through `sim` without caps: `pick_next` reads the offset
@@ -385,5 +421,26 @@ example :
 example : C15.monitor demoCase (modelObs exOracle 100 demoCase (demoRun "u" 0 40 true false false) ()) = none := by
   rw [modelObs_of_stream _ _ _ _ _ (by decide +kernel)]
   decide +kernel
+
+/-- non-vacuity of `C15_monitor_accepts_model`: the padding machine passes validation, and the
+    demo case (padding machine on the client, four-line raw trace, 10 ms delay) with a cap of 40
+    iterations over times up to 3 ms meets every hypothesis — so the monitor accepts the model's
+    observation of that run for EVERY oracle and budget -/
+theorem demoPad_ok : MachinesOK [demoPad] := by
+  intro m hm
+  simp only [List.mem_singleton] at hm
+  subst hm
+  constructor
+  · decide +kernel
+  · intro st hst
+    simp only [demoPad, List.mem_singleton] at hst
+    subst hst
+    rfl
+
+example (budget : Nat) (orc : σ) :
+    C15.monitor demoCase (modelObs ρ budget demoCase (demoRun "u" 0 40 true false false) orc) = none :=
+  C15_monitor_accepts_model ρ budget demoCase _ orc 40 3000000 demoPad_ok (by intro m hm; cases hm)
+    ⟨by decide +kernel, by decide +kernel, by decide +kernel, by decide +kernel⟩ (by decide)
+    (by intro p hp; cases hp) (Or.inl rfl) (by decide) (by decide)
 
 end Mb.C15
